@@ -29,7 +29,7 @@ BOUNDS = {
     "quick": dict(W_WS=2, A_L1=4, W_L1=2, A_INT=4, A_TYPE=3, A_UF=6, W_UF=4, A_FS=2),
     "thorough": dict(W_WS=3, A_L1=6, W_L1=4, A_INT=7, A_TYPE=4, A_UF=8, W_UF=6, A_FS=3),
 }
-SWEEP_LEN = {"quick": 4, "thorough": 5}
+SWEEP_LEN = {"quick": 5, "thorough": 6}
 
 APPEND = '''
 // ---- appended by /verif/props/C03.py; nothing above this line is modified ------------------------------
@@ -263,6 +263,13 @@ def cex_inputs(fam, prog, h, log):
     cmd = core.kani_cmd(fam, ["--harness", pretty, "--exact", "-Z", "concrete-playback", "--concrete-playback=print", "--target-dir", td])
     rc, out, dt = core.sh(cmd, cwd=cd, timeout=fam.harness_timeout + 600)
     blocks = re.findall(r"```\s*\n(.*?)```", out, re.S)
+    seen, uniq = set(), []
+    for b in blocks:
+        mm = re.search(r"fn (kani_concrete_playback_\w+)", b)
+        if mm and mm.group(1) not in seen:
+            seen.add(mm.group(1))
+            uniq.append(b)
+    blocks = uniq
     if not blocks:
         return [], None, out[-3000:]
     test_src = "\n".join(blocks)
@@ -275,7 +282,7 @@ def cex_inputs(fam, prog, h, log):
            [prog.key + "::proofs::" + n for n in tnames]
     rc2, out2, dt2 = core.sh(cmd2, cwd=cd, timeout=1200, env=dict(core.ENV, CARGO_TARGET_DIR=td + "/playback"))
     ins = []
-    for m in re.finditer(r'^CEX-INPUT ("(?:[^"\\]|\\.)*")', out2, re.M):
+    for m in re.finditer(r'CEX-INPUT ("(?:[^"\\]|\\.)*")', out2):
         try:
             s = rust_debug_str_to_py(m.group(1))
         except Exception:
